@@ -1,13 +1,26 @@
 (** C06: correspondence + monitor entry points.
     - [KCycle]: one real scheduling cycle (snapshot + Cache calls, Run/Cycle.v)
-      with the queue tree, min-runtime settings and start times.  The calls are
-      cut into commits (a run of Evict calls with the same action and preemptor
-      followed by the nominations of that statement); every commit must be an
-      accepted run of the model ([run_scenario] with the real victims and
-      placements as oracle values) producing the same calls, and the property
-      clauses are evaluated on every real Evict call.  Purpose-built clusters
-      carry the designated scenario: the model's verdict "evicts / does not
-      evict" must equal the real outcome.
+      with the queue tree, min-runtime settings and start times.  The recording
+      cache of the harness makes chosen Evict / Bind calls FAIL (they return an
+      error and do not reach the cluster): [y_fcalls] is the full call stream,
+      each call marked accepted or refused ([c_calls] of the snapshot case keeps
+      the accepted ones).  The calls are cut into commits (a run of Evict calls,
+      accepted or refused, with the same action and preemptor followed by the
+      nominations of that statement); every commit must be an accepted run of the
+      model ([run_scenario_f] with the real victims and placements as oracle
+      values and the observed refusals as failure oracle) producing the same
+      calls, and the property clauses are evaluated on every real Evict call.
+      How a refused eviction is treated (Statement.commitEvict, unchanged code):
+      the error is logged; Statement.unevict is called with the status and GPU
+      groups commitEvict read off the pod just before the Cache call, i.e. the
+      ones the statement gave it - so in the session the pod KEEPS the status
+      Releasing (or Pipelined on its new node, if the statement re-placed it)
+      for the rest of the cycle, only the previous node's copy is refreshed
+      (and the plugins' allocate handlers run); the remaining operations of the
+      statement - the nominations - are still committed.  The session the
+      cycle ends in, derived from the calls under this reading, is compared
+      with the statuses read from the real session ([y_final]).  Purpose-built clusters carry the designated scenario: the
+      model's verdict "evicts / does not evict" must equal the real outcome.
     - [KResolve]: the min-runtime durations the real plugin resolved for a pair
       of queues (read back through its exported filter hooks).
     - [KValid]: the real scenario validators on a hand-made scenario. *)
@@ -22,7 +35,15 @@ Record desig := mkDes {
   d_action : nat; d_pre : positive; d_victims : list positive;
   d_sim : list (positive * positive * list positive);
 }.
-Record cyc := mkCyc { y_cc : ccase; y_env : c06env; y_des : option desig }.
+(** a Cache call with its outcome; [FOrphan]: a pod the real session still holds as
+    Allocated on a node after a refused Bind ended its statement's commit (the
+    operations behind the refused bind are dropped but not undone) *)
+Inductive fcall := FC (ok : bool) (c : call) | FOrphan (p n : positive) (gs : list positive).
+Record cyc := mkCyc {
+  y_cc : ccase; y_env : c06env; y_des : option desig;
+  y_fcalls : list fcall;
+  y_final : list (positive * status * option positive);   (* pod, status and node in the real session after the cycle *)
+}.
 Record rcase := mkRC {
   r_queues : list vqueue; r_dpre : Z; r_drec : Z; r_lca : bool;
   r_pq : positive; r_vq : positive;        (* queues named by the pending job and by the victim *)
@@ -62,53 +83,77 @@ Definition apply_pipe (s : sstate) (p n : positive) (gs : list positive) : sstat
 Definition apply_evict (s : sstate) (p : positive) : sstate :=
   with_tasks s (upd_first p (set_status Releasing) (ss_tasks s)).
 
+Definition set_orphan (n : positive) (gs : list positive) (x : vtask) : vtask :=
+  mkVT (vt_id x) (vt_job x) (vt_pset x) Allocated (Some n) gs (vt_shared x).
+Definition apply_orphan (s : sstate) (p n : positive) (gs : list positive) : sstate :=
+  mkSS (ss_jobs s) (upd_first p (set_orphan n gs) (ss_tasks s)) (entry_set (ss_entries s) p n gs).
+
 Record seg := mkSeg {
-  sg_a : nat; sg_pre : option positive; sg_ev : list positive;
+  sg_a : nat; sg_pre : option positive;
+  sg_ev : list (positive * bool);                  (* Evict calls of the commit: pod, accepted *)
   sg_pipes : list (positive * positive * list positive);
 }.
+Definition sg_accepted (sg : seg) : list positive := map fst (filter snd (sg_ev sg)).
+Definition sg_refused (sg : seg) : list positive := map fst (filter (fun e => negb (snd e)) (sg_ev sg)).
 Definition opt_pos_eq (a b : option positive) : bool :=
   match a, b with
   | Some x, Some y => Pos.eqb x y
   | None, None => true
   | _, _ => false
   end.
-Fixpoint take_evicts (a : nat) (pre : option positive) (cs : list call) : list positive * list call :=
+Fixpoint take_evicts (a : nat) (pre : option positive) (cs : list fcall) : list (positive * bool) * list fcall :=
   match cs with
-  | CEvict p a' pre' :: r =>
+  | FC ok (CEvict p a' pre') :: r =>
       if Nat.eqb a a' && opt_pos_eq pre pre' then
-        let '(ev, rest) := take_evicts a pre r in (p :: ev, rest)
+        let '(ev, rest) := take_evicts a pre r in ((p, ok) :: ev, rest)
       else ([], cs)
   | _ => ([], cs)
   end.
-Fixpoint take_pipes (cs : list call) : list (positive * positive * list positive) * list call :=
+Fixpoint take_pipes (cs : list fcall) : list (positive * positive * list positive) * list fcall :=
   match cs with
-  | CPipe p n gs :: r => let '(pp, rest) := take_pipes r in ((p, n, gs) :: pp, rest)
+  | FC _ (CPipe p n gs) :: r => let '(pp, rest) := take_pipes r in ((p, n, gs) :: pp, rest)
   | _ => ([], cs)
   end.
+(** commitEvict's "un-evict" of a refused eviction, from the calls alone: the pod
+    keeps the status, groups and node name the statement gave it; the copy on the
+    node it was evicted from ([s0]: the state the commit started from) is refreshed *)
+Definition apply_refused (s0 s : sstate) (p : positive) : sstate :=
+  match get_task (ss_tasks s0) p, get_task (ss_tasks s) p with
+  | Some tk0, Some tk =>
+      match vt_node tk0 with
+      | Some n0 => mkSS (ss_jobs s) (ss_tasks s) (entry_set (ss_entries s) p n0 (vt_groups tk))
+      | None => s
+      end
+  | _, _ => s
+  end.
 Definition apply_seg (s : sstate) (sg : seg) : sstate :=
-  fold_left (fun s r => let '(p, n, gs) := r in apply_pipe s p n gs) (sg_pipes sg)
-            (fold_left apply_evict (sg_ev sg) s).
+  fold_left (apply_refused s) (sg_refused sg)
+    (fold_left (fun s r => let '(p, n, gs) := r in apply_pipe s p n gs) (sg_pipes sg)
+               (fold_left apply_evict (map fst (sg_ev sg)) s)).
 
-(** commits of the cycle, each with the state it started from *)
-Fixpoint segments (fuel : nat) (s : sstate) (cs : list call) : list (sstate * seg) :=
+(** commits of the cycle, each with the state it started from; and the state the cycle ends in *)
+Fixpoint segments (fuel : nat) (s : sstate) (cs : list fcall) : list (sstate * seg) * sstate :=
   match fuel with
-  | O => []
+  | O => ([], s)
   | S f =>
       match cs with
-      | [] => []
-      | CBind p n gs :: r => segments f (apply_bind s p n gs) r
-      | CPipe p n gs :: r => segments f (apply_pipe s p n gs) r
-      | CEvict p a pre :: r =>
-          if Nat.eqb a 0 then segments f (apply_evict s p) r
+      | [] => ([], s)
+      | FOrphan p n gs :: r => segments f (apply_orphan s p n gs) r
+      | FC ok (CBind p n gs) :: r => segments f (if ok then apply_bind s p n gs else s) r
+      | FC _ (CPipe p n gs) :: r => segments f (apply_pipe s p n gs) r
+      | FC ok (CEvict p a pre) :: r =>
+          if Nat.eqb a 0 then segments f (if ok then apply_evict s p else s) r
           else
             let '(ev, r1) := take_evicts a pre cs in
             let '(pp, r2) := take_pipes r1 in
             let sg := mkSeg a pre ev pp in
-            (s, sg) :: segments f (apply_seg s sg) r2
+            let '(sgs, sf) := segments f (apply_seg s sg) r2 in
+            ((s, sg) :: sgs, sf)
       end
   end.
-Definition cyc_segments (y : cyc) : list (sstate * seg) :=
-  segments (S (List.length (c_calls (y_cc y)))) (state_of (y_cc y) (y_env y)) (c_calls (y_cc y)).
+Definition cyc_run (y : cyc) : list (sstate * seg) * sstate :=
+  segments (S (List.length (y_fcalls y))) (state_of (y_cc y) (y_env y)) (y_fcalls y).
+Definition cyc_segments (y : cyc) : list (sstate * seg) := fst (cyc_run y).
 
 Definition vaction_eqb (a b : vaction) : bool :=
   match a, b with
@@ -118,20 +163,26 @@ Definition vaction_eqb (a b : vaction) : bool :=
 Definition vcall_eqb (a b : vcall) : bool :=
   match a, b with
   | VEvict t x p, VEvict t' x' p' => Pos.eqb t t' && vaction_eqb x x' && Pos.eqb p p'
+  | VEvictFailed t x p, VEvictFailed t' x' p' => Pos.eqb t t' && vaction_eqb x x' && Pos.eqb p p'
   | VPipe t n gs, VPipe t' n' gs' => Pos.eqb t t' && Pos.eqb n n' && pos_list_eqb gs gs'
   | _, _ => false
   end.
+(** the failure oracle the real commit met: its k-th Evict call was refused *)
+Definition seg_faults (sg : seg) : faults :=
+  mkF (fun k => negb (nth k (map snd (sg_ev sg)) true)) (fun _ => false).
 
 (** the real commit is an accepted run of the model and the model emits the same calls *)
 Definition seg_model_ok (env : venv) (ss : sstate * seg) : bool :=
   let '(s, sg) := ss in
   match action_of (sg_a sg), sg_pre sg with
   | Some a, Some pre =>
-      let sc := mkSc [] (dedup_pos (sg_ev sg)) (sg_ev sg) 0 true in
-      match run_scenario env a s pre sc (sg_pipes sg) with
+      let evs := map fst (sg_ev sg) in
+      let sc := mkSc [] (dedup_pos evs) evs 0 true in
+      match run_scenario_f (seg_faults sg) env a s pre sc (sg_pipes sg) with
       | Committed calls _ =>
           list_eqb vcall_eqb calls
-                   (map (fun t => VEvict t a pre) (sg_ev sg) ++ map (fun r => let '(p, n, gs) := r in VPipe p n gs) (sg_pipes sg))
+                   (map (fun e : positive * bool => if snd e then VEvict (fst e) a pre else VEvictFailed (fst e) a pre) (sg_ev sg)
+                    ++ map (fun r => let '(p, n, gs) := r in VPipe p n gs) (sg_pipes sg))
       | _ => false
       end
   | _, _ => false
@@ -158,9 +209,62 @@ Definition model_evicts (env : venv) (s : sstate) (d : desig) : bool :=
 (** (the node-level replay [cycle_agrees] of Run/Cycle.v is the correspondence of
     C01-C03 and is not repeated here; [run_flags] still reports cycles exposed to
     the device-count quirk C14-device-guard) *)
+(** the snapshot case keeps exactly the accepted calls *)
+Definition call_eqb (a b : call) : bool :=
+  match a, b with
+  | CBind p n gs, CBind p' n' gs' | CPipe p n gs, CPipe p' n' gs' => Pos.eqb p p' && Pos.eqb n n' && pos_list_eqb gs gs'
+  | CEvict p a pre, CEvict p' a' pre' => Pos.eqb p p' && Nat.eqb a a' && opt_pos_eq pre pre'
+  | _, _ => false
+  end.
+Definition accepted_calls (cs : list fcall) : list call :=
+  flat_map (fun c => match c with FC true c => [c] | _ => [] end) cs.
+Definition no_refusal (cs : list fcall) : bool :=
+  forallb (fun c => match c with FC true _ => true | _ => false end) cs.
+
+(** Statement.Commit at a refused Bind: cleanup, clearOperations, return - no further
+    Bind for a pod of the same job follows (the allocate action serves a job once) *)
+Fixpoint bind_stop_ok (s : sstate) (cs : list fcall) : bool :=
+  match cs with
+  | [] => true
+  | FC false (CBind p _ _) :: r =>
+      forallb (fun c => match c with
+                        | FC _ (CBind p' _ _) =>
+                            negb (match get_task (ss_tasks s) p, get_task (ss_tasks s) p' with
+                                  | Some t, Some t' => Pos.eqb (vt_job t) (vt_job t')
+                                  | _, _ => false
+                                  end)
+                        | _ => true
+                        end) r
+      && bind_stop_ok s r
+  | _ :: r => bind_stop_ok s r
+  end.
+
+(** the session the cycle ends in, as derived from the calls, against the real session.
+    [excl]: pods left out.  A pod whose eviction was refused stays "virtually"
+    Releasing in the real session (commitEvict hands Statement.unevict the status
+    and the IsVirtualStatus flag it reads at commit time); its own job then counts
+    it among the pods to place, and JobSolver.Solve can return a solved statement
+    that nominates it while the job gained no active pod - the action neither
+    commits nor discards that statement, so the pod ends the cycle nominated in
+    the session without any Cache call.  Nothing reaches the cluster; such pods are
+    compared loosely and the difference is counted (observation flag 120). *)
+Definition final_ok (excl : list positive) (sf : sstate) (fin : list (positive * status * option positive)) : bool :=
+  forallb (fun e => let '(p, st, n) := e in
+                    mem_pos p excl
+                    || match get_task (ss_tasks sf) p with
+                       | Some tk => status_eqb (vt_status tk) st
+                                    && (negb (active_used st) || opt_pos_eq (vt_node tk) n)
+                       | None => false
+                       end) fin.
+Definition refused_pods (cs : list fcall) : list positive :=
+  flat_map (fun c => match c with FC false (CEvict p _ _) => [p] | _ => [] end) cs.
+
 Definition cyc_agrees (y : cyc) : bool :=
   let env := venv_of (y_env y) in
-  forallb (seg_model_ok env) (cyc_segments y)
+  list_eqb call_eqb (accepted_calls (y_fcalls y)) (c_calls (y_cc y))
+  && bind_stop_ok (state_of (y_cc y) (y_env y)) (y_fcalls y)
+  && final_ok (refused_pods (y_fcalls y)) (snd (cyc_run y)) (y_final y)
+  && forallb (seg_model_ok env) (cyc_segments y)
   && match y_des y with
      | Some d => Bool.eqb (model_evicts env (state_of (y_cc y) (y_env y)) d) (real_evicts (y_cc y) d)
      | None => true
@@ -176,12 +280,18 @@ Definition seg_monitor (env : venv) (ss : sstate * seg) : bool :=
       match find_job (ss_jobs s) pre with
       | None => false
       | Some pj =>
-          (* clause 2: the commit places a pod of the preemptor *)
-          existsb (fun r => match get_task (ss_tasks s) (fst (fst r)) with
-                            | Some tk => Pos.eqb (vt_job tk) pre
-                            | None => false
-                            end) (sg_pipes sg)
-          && forallb (fun t =>
+          (* no pod is evicted twice by one commit (Statement.Evict leaves a pod alone that is already
+             Releasing in the session: repairs 83a0ca3, bce7109) *)
+          nodup_posb (map fst (sg_ev sg))
+          (* clause 2: a commit in which the cluster ACCEPTED an eviction also nominates a pod of the
+             workload the evictions name in their metadata *)
+          &&
+          ((match sg_accepted sg with [] => true | _ => false end)
+           || existsb (fun r => match get_task (ss_tasks s) (fst (fst r)) with
+                                | Some tk => Pos.eqb (vt_job tk) pre
+                                | None => false
+                                end) (sg_pipes sg))
+          && forallb (fun e => let '(t, accepted) := e in
                match get_task (ss_tasks s) t, job_of s t with
                | Some tk, Some j =>
                    (* clause 1 *)
@@ -199,9 +309,11 @@ Definition seg_monitor (env : venv) (ss : sstate * seg) : bool :=
                                                       || (snd pm <=? live_count s' (vj_id j) (fst pm))) (vj_psets j)
                          end
                        else true)
-                   (* clause 3: a consolidation victim is re-placed elsewhere by the same commit *)
+                   (* clause 3: a consolidation victim whose eviction was ACCEPTED is re-placed elsewhere by
+                      the same commit (a refused one stays where it runs) *)
                    && (match a with
                        | AConsolidation =>
+                           negb accepted ||
                            existsb (fun r => let '(p, n, gs) := r in
                                              Pos.eqb p t
                                              && (negb (opt_pos_eq (vt_node tk) (Some n))
@@ -271,4 +383,8 @@ Definition run_mismatches (cs : list (nat * c06case)) : list nat := failing (fun
 Definition run_monitor (cs : list (nat * c06case)) : list nat := failing (fun k => negb (monitor_ok k)) cs.
 Definition run_flags (cs : list (nat * c06case)) : list (nat * list nat) :=
   filter (fun p => negb (Nat.eqb (List.length (snd p)) 0))
-         (map (fun c => (fst c, match snd c with KCycle y => cycle_flags (y_cc y) | _ => [] end)) cs).
+         (map (fun c => (fst c, match snd c with
+                                | KCycle y => (if no_refusal (y_fcalls y) then cycle_flags (y_cc y) else [])
+                                              ++ (if final_ok [] (snd (cyc_run y)) (y_final y) then [] else [120%nat])
+                                | _ => []
+                                end)) cs).
